@@ -1648,7 +1648,8 @@ def src_similarity(repo):
     opts = {}       # variable -> list of names
     idxs = None
     done = False
-    for s in _body(fn):
+    tm = Temps(_helpers(fs, {"correlation_index", "_compute_correlation_index"}), protected=ps)
+    for s in tm.walk(_body(fn)):
         if done:
             raise Untranslatable("statement after return")
         if isinstance(s, ast.For) and len(s.body) == 1 and not s.orelse:
@@ -1728,7 +1729,7 @@ def src_similarity(repo):
         e = m_stmt(s, "return _s")
         if e and sw["red"] and _name(e["_s"]) == sw["red"][1]:
             done = True; continue
-        raise Untranslatable("statement: " + ast.unparse(s).split("\n")[0][:70])
+        tm.unmatched(s, "statement: ")
     if not (done and sw["stack"] and sw["methods"] is not None and idxs):
         raise Untranslatable("incomplete: options / stacking / indices / return not all found")
     # _compute_correlation_index
@@ -1737,7 +1738,8 @@ def src_similarity(repo):
         raise Untranslatable("_compute_correlation_index parameters")
     x1, x2, ctol = cps
     cvar = nvar = svar = None; cabs = None; nexp = None; cexp = None; cmp_ = None; cdone = False
-    for s in _body(cf):
+    tm2 = Temps(_helpers(fs, {"correlation_index", "_compute_correlation_index"}), protected=cps)
+    for s in tm2.walk(_body(cf)):
         e = m_stmt(s, "_c = tl.abs(tl.matmul(tl.conj(tl.transpose(_a)), _b))") or m_stmt(s, "_c = tl.abs(tl.dot(tl.transpose(_a), _b))")
         e_ = None if e else (m_stmt(s, "_c = tl.matmul(tl.conj(tl.transpose(_a)), _b)") or m_stmt(s, "_c = tl.dot(tl.transpose(_a), _b)"))
         if (e or e_) and cvar is None:
@@ -1751,7 +1753,11 @@ def src_similarity(repo):
                 nvar, nexp = s.targets[0].id, nexp_try; continue
             except Untranslatable:
                 pass
-            cexp = _cexp(s.value, cvar, nvar, nexp); svar = s.targets[0].id; continue
+            try:        # not a score expression: possibly a temporary (tm2.unmatched below decides)
+                cexp_try = _cexp(s.value, cvar, nvar, nexp)
+                cexp, svar = cexp_try, s.targets[0].id; continue
+            except Untranslatable:
+                pass
         if isinstance(s, ast.If) and svar and cmp_ is None and not s.orelse and len(s.body) == 1:
             e = m_stmt(s.body[0], "_s = 0")
             t = s.test
@@ -1761,7 +1767,7 @@ def src_similarity(repo):
         e = m_stmt(s, "return _s")
         if e and svar and _name(e["_s"]) == svar and cmp_:
             cdone = True; continue
-        raise Untranslatable("_compute_correlation_index: " + ast.unparse(s).split("\n")[0][:70])
+        tm2.unmatched(s, "_compute_correlation_index: ")
     if not (cdone and cexp):
         raise Untranslatable("_compute_correlation_index incomplete")
     bl = lambda b: "true" if b else "false"
@@ -1816,12 +1822,14 @@ def _cexp(n, cvar, nvar, nexp):
 
 
 def src_leverage(repo):
-    fn = _funcs(os.path.join(repo, "tensorly", "metrics", "leverage_scores.py")).get("leverage_score_dist")
+    lfuncs = _funcs(os.path.join(repo, "tensorly", "metrics", "leverage_scores.py"))
+    fn = lfuncs.get("leverage_score_dist")
     if fn is None or len(fn.args.args) != 1:
         raise Untranslatable("leverage_score_dist(matrix) not found")
     M = fn.args.args[0].arg
-    U = S = dt = cut = k = lev = None; cutl = None; cmp_ = None; renorm = False; done = False
-    for s in _body(fn):
+    U = S = dt = cut = k = lev = None; cutl = None; cmp_ = None; renorm = False; done = False; cands = {}
+    tm = Temps(_helpers(lfuncs, {"leverage_score_dist"}), protected=[M])
+    for s in tm.walk(_body(fn)):
         e = m_stmt(s, "_U, _S, _ = tl.svd(_M, full_matrices=False)")
         if e and U is None and _name(e["_M"]) == M:
             U, S = _name(e["_U"]), _name(e["_S"]); continue
@@ -1829,32 +1837,29 @@ def src_leverage(repo):
         if e and _name(e["_M"]) == M and lev is None:
             dt = _name(e["_d"]); continue
         if isinstance(s, ast.Assign) and len(s.targets) == 1 and isinstance(s.targets[0], ast.Name) and U and cut is None:
-            fl = []
-
+            # a product of cut-off factors (in any order / association; a factor may be an earlier such product): a CANDIDATE for the
+            # rank cut-off; which candidate is the cut-off is decided by the comparison `S > candidate` below
             def flat(n):
                 if isinstance(n, ast.BinOp) and isinstance(n.op, ast.Mult):
-                    flat(n.left)
-                    if isinstance(n.right, ast.BinOp):
-                        raise Untranslatable("cut-off product is not left-associated")
-                    fl.append(n.right)
-                else:
-                    fl.append(n)
-            flat(s.value)
-            out = []
-            for f in fl:
-                if (lambda e: e and _name(e["_S"]) == S)(m_expr(f, "tl.max(_S)")):
-                    out.append("FMaxS")
-                elif (lambda e: e and _name(e["_M"]) == M)(m_expr(f, "max(_M.shape)")):
-                    out.append("FMaxShape")
-                elif (lambda e: e and _name(e["_M"]) == M)(m_expr(f, "min(_M.shape)")):
-                    out.append("FMinShape")
-                elif (lambda e: e and dt and _name(e["_d"]) == dt)(m_expr(f, "tl.eps(_d)")):
-                    out.append("FEps")
-                else:
-                    raise Untranslatable("cut-off factor " + ast.unparse(f)[:50])
-            cut, cutl = s.targets[0].id, out; continue
+                    a_, b_ = flat(n.left), flat(n.right)
+                    return None if a_ is None or b_ is None else a_ + b_
+                if isinstance(n, ast.Name) and n.id in cands:
+                    return list(cands[n.id])
+                if (lambda e: e and _name(e["_S"]) == S)(m_expr(n, "tl.max(_S)")):
+                    return ["FMaxS"]
+                if (lambda e: e and _name(e["_M"]) == M)(m_expr(n, "max(_M.shape)")):
+                    return ["FMaxShape"]
+                if (lambda e: e and _name(e["_M"]) == M)(m_expr(n, "min(_M.shape)")):
+                    return ["FMinShape"]
+                if (lambda e: e and dt and _name(e["_d"]) == dt)(m_expr(n, "tl.eps(_d)")):
+                    return ["FEps"]
+                return None
+            out = flat(s.value)
+            if out is not None and s.targets[0].id not in cands:
+                cands[s.targets[0].id] = out; continue
         e = m_stmt(s, "_k = int(tl.max(tl.where(_S > _c)[0])) + 1") or m_stmt(s, "_k = int(tl.max(tl.where(_S >= _c)[0])) + 1")
-        if e and cut and _name(e["_S"]) == S and _name(e["_c"]) == cut and k is None:
+        if e and cut is None and _name(e["_S"]) == S and _name(e["_c"]) in cands and k is None:
+            cut = _name(e["_c"]); cutl = cands[cut]
             cmpnode = s.value.left.args[0].args[0].value.args[0]
             cmp_ = "CLt" if isinstance(cmpnode.ops[0], ast.Gt) else "CLe"
             k = _name(e["_k"]); continue
@@ -1875,7 +1880,7 @@ def src_leverage(repo):
         e = m_stmt(s, "return _l")
         if e and lev and _name(e["_l"]) == lev:
             done = True; continue
-        raise Untranslatable("statement: " + ast.unparse(s).split("\n")[0][:70])
+        tm.unmatched(s, "statement: ")
     if not (done and cutl and cmp_):
         raise Untranslatable("incomplete")
     return f"(mkLV [{'; '.join(cutl)}] {cmp_} {'true' if renorm else 'false'})"
@@ -1913,7 +1918,8 @@ def src_cp_permute(repo):
             raise Untranslatable("list branch: " + ast.unparse(lp.body[1])[:60])
         sw["nlist"] = True
     nt = nf = perm = None; stage = 0
-    for s in body[1:]:
+    tm = Temps({}, protected=[a.arg for a in fn.args.args])
+    for s in tm.walk(body[1:]):
         if stage == 0:
             e = m_stmt(s, "_R = cp_normalize(_R)")
             if e and _name(e["_R"]) == ref:
@@ -1960,7 +1966,7 @@ def src_cp_permute(repo):
             e = m_stmt(s, "return _P, _p")
             if e and _name(e["_P"]) == P and _name(e["_p"]) == perm:
                 stage = 3; continue
-        raise Untranslatable("statement: " + ast.unparse(s).split("\n")[0][:70])
+        tm.unmatched(s, "statement: ")
     if stage != 3:
         raise Untranslatable("incomplete: main loop / unwrap / return not all found")
     bl = lambda b: "true" if b else "false"
